@@ -186,6 +186,96 @@ pub struct SeqScenario {
     pub trigger: fn(&Plan, &RunResult, &SeqModel) -> bool,
     /// findings of these rule prefixes are consequences this property owns; they are renamed `<to>.<rule>`
     pub relabel: Option<(&'static [&'static str], &'static str)>,
+    /// C02: also run the plan with every non-consuming call removed (real code, fresh processes) and require
+    /// identical results for all remaining operations
+    pub twin_without_nonconsuming: bool,
+}
+
+fn is_nonconsuming(k: &OpKind) -> bool {
+    matches!(k, OpKind::ReadNext { checkpoint: false, .. } | OpKind::BatchRead { checkpoint: false, .. } | OpKind::BatchRead { start: Some(_), .. } | OpKind::ReclaimSnap {})
+}
+
+/// The plan without its non-consuming calls (and without the bookkeeping snapshots that bracket them).
+pub fn strip_nonconsuming(plan: &Plan) -> Plan {
+    let mut p = plan.clone();
+    for inc in p.incarnations.iter_mut() {
+        for ph in inc.phases.iter_mut() {
+            for th in ph.threads.iter_mut() {
+                th.retain(|o| !is_nonconsuming(&o.kind));
+            }
+        }
+    }
+    p
+}
+
+fn has_removal(rr: &RunResult) -> bool {
+    rr.incs.iter().any(|i| i.events.iter().any(|e| e.t == "io" && e.io.as_ref().map(|x| x.kind == "Remove").unwrap_or(false)))
+}
+
+/// C02, differential form: "a non-consuming read never changes what any later read returns or the reported counts".
+/// `with` = the run of the full plan, `without` = the run of the same plan minus its non-consuming calls.
+pub fn judge_twin(plan: &Plan, with: &RunResult, without: &RunResult) -> Vec<Finding> {
+    let mut out = Vec::new();
+    // a reclaimed file moves positional cursors after a reopen (C12's listed finding): not this rule's business
+    if has_removal(with) || has_removal(without) {
+        return out;
+    }
+    let ops = index_ops(plan);
+    let (a, b) = (results_by_op(with), results_by_op(without));
+    let alo = ops.values().find_map(|o| if let OpKind::Open { alo, .. } = &o.kind { Some(*alo) } else { None }).unwrap_or(0);
+    // incarnation of each op (for the fact "after a restart")
+    let mut inc_of: BTreeMap<u32, usize> = BTreeMap::new();
+    for (i, inc) in plan.incarnations.iter().enumerate() {
+        for ph in &inc.phases {
+            for th in &ph.threads {
+                for o in th {
+                    inc_of.insert(o.id, i);
+                }
+            }
+        }
+    }
+    for (id, y) in b.iter() {
+        let Some(op) = ops.get(id) else { continue };
+        if is_nonconsuming(&op.kind) {
+            continue;
+        }
+        let Some(x) = a.get(id) else {
+            out.push(Finding::new("c02.twin_differs", inc_of.get(id).copied().unwrap_or(0), *id, format!("op {} ({}) returned in the run without non-consuming calls but not in the run with them", id, short_op(op, plan))));
+            return out;
+        };
+        let same = x.k == y.k && x.err_kind == y.err_kind && x.entries == y.entries && x.none == y.none && x.val == y.val && x.flag == y.flag && x.map == y.map;
+        if !same {
+            // the last non-consuming call before this op in the full plan
+            let inc = inc_of.get(id).copied().unwrap_or(0);
+            out.push(
+                Finding::new(
+                    "c02.twin_differs",
+                    inc,
+                    *id,
+                    format!(
+                        "op {} ({}) returns {} {:?} entries={:?} none={:?} val={:?} in the history with peeks/offset reads, and {} {:?} entries={:?} none={:?} val={:?} in the same history without them",
+                        id,
+                        short_op(op, plan),
+                        x.k,
+                        x.err_kind,
+                        x.entries.iter().take(4).map(|s| (s.0, s.2)).collect::<Vec<_>>(),
+                        x.none,
+                        x.val,
+                        y.k,
+                        y.err_kind,
+                        y.entries.iter().take(4).map(|s| (s.0, s.2)).collect::<Vec<_>>(),
+                        y.none,
+                        y.val
+                    ),
+                )
+                .fact("api", serde_json::json!(api_name(&op.kind)))
+                .fact("alo", serde_json::json!(alo))
+                .fact("after_restart", serde_json::json!(inc > 0)),
+            );
+            return out;
+        }
+    }
+    out
 }
 
 impl SeqScenario {
@@ -283,6 +373,18 @@ impl Scenario for SeqScenario {
                 out.stat(&format!("other_rule.{}", f.rule), 1);
             }
         }
+        if self.twin_without_nonconsuming && matches!(rr.incs.last().map(|i| &i.exit), Some(Exit::Code(0))) && rr.incs.len() == plan.incarnations.len() {
+            let stripped = strip_nonconsuming(&plan);
+            let r2 = run_plan(&env.bins, &stripped, &RunOpts::default());
+            out.executions += r2.incs.len() as u64;
+            out.digest = crate::rng::fnv_step(out.digest, history_hash(&r2));
+            out.stat("twin_runs", 1);
+            if r2.incs.len() == stripped.incarnations.len() && matches!(r2.incs.last().map(|i| &i.exit), Some(Exit::Code(0))) {
+                for f in judge_twin(&plan, &rr, &r2) {
+                    out.findings.push((plan.clone(), f));
+                }
+            }
+        }
         out.sample = Some(render_sample(&plan));
         out
     }
@@ -295,7 +397,17 @@ impl Scenario for SeqScenario {
         tag_removal_facts(plan, &rr, &mut f);
         f.retain(|x| x.facts.get("reopened_after_file_removal") != Some(&serde_json::json!(true)));
         let f = self.map_findings(f);
-        (f.into_iter().filter(|f| self.owns.iter().any(|p| f.rule.starts_with(p))).collect(), history_hash(&rr))
+        let mut f: Vec<Finding> = f.into_iter().filter(|f| self.owns.iter().any(|p| f.rule.starts_with(p))).collect();
+        let mut hh = history_hash(&rr);
+        if self.twin_without_nonconsuming && rr.incs.len() == plan.incarnations.len() && matches!(rr.incs.last().map(|i| &i.exit), Some(Exit::Code(0))) {
+            let stripped = strip_nonconsuming(plan);
+            let r2 = run_plan(&env.bins, &stripped, &RunOpts::default());
+            hh = crate::rng::fnv_step(hh, history_hash(&r2));
+            if r2.incs.len() == stripped.incarnations.len() && matches!(r2.incs.last().map(|i| &i.exit), Some(Exit::Code(0))) {
+                f.extend(judge_twin(plan, &rr, &r2));
+            }
+        }
+        (f, hh)
     }
 }
 
@@ -355,6 +467,7 @@ pub fn scenario(id: &str) -> Option<Box<dyn Scenario>> {
             rule: "seeded operation sequences (append, batch_append, read_next, batch_read with budgets, 1-3 topics, sizes 0..multi-block, fd/mmap, StrictlyAtOnce/AtLeastOnce, all fsync schedules, both geometries) executed on the real engine under the simulator and compared op by op with a reference log+cursor model; a run is non-trivial when it appends at least two entries; distinct = distinct (plan shape, schedule hash)",
             trigger: any_read,
             relabel: None,
+            twin_without_nonconsuming: false,
         }),
         "C03" => Box::new(SeqScenario {
             id: "C03",
@@ -367,6 +480,7 @@ pub fn scenario(id: &str) -> Option<Box<dyn Scenario>> {
             rule: "as C01 with the mix shifted to batch reads (consuming and peeking) whose budgets are drawn from boundary sets (0, 1, next entry +-1, next two +-1, block size, usize::MAX-k); oracle: <=2000 entries, payload sum <= budget unless exactly one entry, >=1 entry whenever the reference model holds an unread entry; non-trivial = run contains a batch read",
             trigger: has_batch_read,
             relabel: None,
+            twin_without_nonconsuming: false,
         }),
         "C15" => Box::new(SeqScenario {
             id: "C15",
@@ -382,6 +496,7 @@ pub fn scenario(id: &str) -> Option<Box<dyn Scenario>> {
             rule: "C01/C06-style histories (peeks, offset reads, rejected appends and clean restarts interleaved) with get_topic_entry_count queried after every operation; expected = entries of successful appends - entries actually returned by consuming reads (StrictlyAtOnce across restarts; AtLeastOnce counts are not asserted after a restart); non-trivial = at least one count compared",
             trigger: count_checked,
             relabel: None,
+            twin_without_nonconsuming: false,
         }),
         "C02" => Box::new(SeqScenario {
             id: "C02",
@@ -390,12 +505,16 @@ pub fn scenario(id: &str) -> Option<Box<dyn Scenario>> {
                 o.w = [25, 10, 8, 8, 5, 28, 16, 0, 0, 1];
                 o.snap_around_peeks = true;
                 o.ops = (5, 50);
+                // "never changes what any later read returns" includes the reads after a clean restart
+                o.incarnations = (1, 3);
+                o.alo_p = 0.45;
                 o
             },
             owns: &["c02."],
             rule: "C01 workload plus read_next(false), batch_read(checkpoint=false) and offset-addressed batch reads (offsets at 0, entry boundaries +-1, mid-payload, block multiples, beyond the end; checkpoint true and false); every peek is immediately followed by the consuming read with the same arguments; oracle: peek == consuming twin, model cursor and counts unchanged by non-consuming calls (seen through all later reads and counts), per-file/per-block reclamation bookkeeping identical before and after each non-consuming call, offset reads return only this topic's entries (first may be a suffix) in append order; non-trivial = run contains a peek or offset read",
             trigger: has_nonconsuming,
             relabel: Some((&["c01.", "c15.", "c03.no_progress"], "c02")),
+            twin_without_nonconsuming: true,
         }),
         "C06" => Box::new(SeqScenario {
             id: "C06",
@@ -412,6 +531,7 @@ pub fn scenario(id: &str) -> Option<Box<dyn Scenario>> {
             rule: "histories with 2-5 incarnations (fresh process each) and optional same-process reopen, clean shutdown = drop + exit; rejected operations, peeks and payloads up to multi-block interleaved; the simulated wall clock moves by {+1ms,+50ms,+1h,+1d,0,-1ms,-40ms,-2s,-1h,-1y} between incarnations; the reference model has no restart operation: StrictlyAtOnce must match it exactly, AtLeastOnce may redeliver but never lose or reorder; counts after reopen are asserted for StrictlyAtOnce; non-trivial = at least one reopen with data present",
             trigger: has_restart_with_data,
             relabel: Some((&["c01.", "c15.", "c03.no_progress"], "c06")),
+            twin_without_nonconsuming: false,
         }),
         "C17" => Box::new(SeqScenario {
             id: "C17",
@@ -430,6 +550,7 @@ pub fn scenario(id: &str) -> Option<Box<dyn Scenario>> {
             rule: "histories of append / mark_topic_clean / mark_topic_dirty / topic_is_clean / sleep over 1-3 topics with clean shutdown (drop, then process exit or same-process reopen) at any delay including immediately; the marker persister thread is scheduled by the simulator (never, once, or between every operation); oracle: last completed call wins, immediately and after every reopen; non-trivial = at least one marker query compared",
             trigger: marker_checked,
             relabel: None,
+            twin_without_nonconsuming: false,
         }),
         "C16" => Box::new(DiffScenario),
         "C12" => Box::new(ReclaimScenario),
@@ -1133,6 +1254,7 @@ fn c04_reject() -> SeqScenario {
         rule: "",
         trigger: has_failed_op,
         relabel: Some((&["c01.", "c15.", "c03.no_progress", "c06."], "c04")),
+        twin_without_nonconsuming: false,
     }
 }
 
